@@ -50,14 +50,11 @@ import (
 	"go/types"
 	"log"
 	"os"
-	"reflect"
 	"runtime"
 	"slices"
-	"sync/atomic"
 	_ "unsafe"
 
 	"golang.org/x/tools/go/ssa"
-	"golang.org/x/tools/internal/typeparams"
 )
 
 type continuation int
@@ -90,6 +87,8 @@ type interpreter struct {
 	runtimeErrorString types.Type             // the runtime.errorString type
 	sizes              types.Sizes            // the effective type-sizing function
 	goroutines         int32                  // atomically updated
+	ex                 *Exec                  // symbolic exploration state (nil: plain interpretation)
+	roots              []*ssa.Package
 }
 
 type deferred struct {
@@ -127,6 +126,9 @@ func (fr *frame) get(key ssa.Value) value {
 		if r, ok := fr.i.globals[key]; ok {
 			return r
 		}
+		cell := zero(mustDeref(key.Type()))
+		fr.i.globals[key] = &cell
+		return &cell
 	}
 	if r, ok := fr.env[key]; ok {
 		return r
@@ -177,12 +179,6 @@ func (fr *frame) runDefers() {
 // lookupMethod returns the method set for type typ, which may be one
 // of the interpreter's fake types.
 func lookupMethod(i *interpreter, typ types.Type, meth *types.Func) *ssa.Function {
-	switch typ {
-	case rtypeType:
-		return i.rtypeMethods[meth.Id()]
-	case errorType:
-		return i.errorMethods[meth.Id()]
-	}
 	return i.prog.LookupMethod(typ, meth.Pkg(), meth.Name())
 }
 
@@ -195,7 +191,16 @@ func visitInstr(fr *frame, instr ssa.Instruction) continuation {
 		// no-op
 
 	case *ssa.UnOp:
-		fr.env[instr] = unop(instr, fr.get(instr.X))
+		if instr.Op == token.ARROW {
+			v, ok := fr.i.ex.chanRecv(fr.get(instr.X).(*vchan), instr.X.Type().Underlying().(*types.Chan).Elem())
+			if instr.CommaOk {
+				fr.env[instr] = tuple{v, ok}
+			} else {
+				fr.env[instr] = v
+			}
+		} else {
+			fr.env[instr] = unop(instr, fr.get(instr.X))
+		}
 
 	case *ssa.BinOp:
 		fr.env[instr] = binop(instr.Op, instr.X.Type(), fr.get(instr.X), fr.get(instr.Y))
@@ -247,14 +252,19 @@ func visitInstr(fr *frame, instr ssa.Instruction) continuation {
 		panic(targetPanic{fr.get(instr.X)})
 
 	case *ssa.Send:
-		fr.get(instr.Chan).(chan value) <- fr.get(instr.X)
+		fr.i.ex.chanSend(fr.get(instr.Chan).(*vchan), fr.get(instr.X))
 
 	case *ssa.Store:
-		store(typeparams.MustDeref(instr.Addr.Type()), fr.get(instr.Addr).(*value), fr.get(instr.Val))
+		addr := fr.get(instr.Addr).(*value)
+		if addr == nil {
+			panic(targetRuntimeError("invalid memory address or nil pointer dereference"))
+		}
+		fr.i.ex.noteStore(fr, instr, addr)
+		store(mustDeref(instr.Addr.Type()), addr, fr.get(instr.Val))
 
 	case *ssa.If:
 		succ := 1
-		if fr.get(instr.Cond).(bool) {
+		if fr.i.ex.truth(fr.get(instr.Cond), instr) {
 			succ = 0
 		}
 		fr.prevBlock, fr.block = fr.block, fr.block.Succs[succ]
@@ -279,14 +289,10 @@ func visitInstr(fr *frame, instr ssa.Instruction) continuation {
 
 	case *ssa.Go:
 		fn, args := prepareCall(fr, &instr.Call)
-		atomic.AddInt32(&fr.i.goroutines, 1)
-		go func() {
-			call(fr.i, nil, instr.Pos(), fn, args)
-			atomic.AddInt32(&fr.i.goroutines, -1)
-		}()
+		fr.i.ex.spawn(fr, instr, fn, args)
 
 	case *ssa.MakeChan:
-		fr.env[instr] = make(chan value, asInt64(fr.get(instr.Size)))
+		fr.env[instr] = fr.i.ex.makeChan(int(asInt64(fr.get(instr.Size))), instr)
 
 	case *ssa.Alloc:
 		var addr *value
@@ -294,11 +300,12 @@ func visitInstr(fr *frame, instr ssa.Instruction) continuation {
 			// new
 			addr = new(value)
 			fr.env[instr] = addr
+			fr.i.ex.noteAlloc(addr)
 		} else {
 			// local
 			addr = fr.env[instr].(*value)
 		}
-		*addr = zero(typeparams.MustDeref(instr.Type()))
+		*addr = zero(mustDeref(instr.Type()))
 
 	case *ssa.MakeSlice:
 		slice := make([]value, asInt64(fr.get(instr.Cap)))
@@ -325,7 +332,11 @@ func visitInstr(fr *frame, instr ssa.Instruction) continuation {
 		fr.env[instr] = fr.get(instr.Iter).(iter).next()
 
 	case *ssa.FieldAddr:
-		fr.env[instr] = &(*fr.get(instr.X).(*value)).(structure)[instr.Field]
+		px := fr.get(instr.X).(*value)
+		if px == nil {
+			panic(targetRuntimeError("invalid memory address or nil pointer dereference"))
+		}
+		fr.env[instr] = &(*px).(structure)[instr.Field]
 
 	case *ssa.Field:
 		fr.env[instr] = fr.get(instr.X).(structure)[instr.Field]
@@ -335,9 +346,10 @@ func visitInstr(fr *frame, instr ssa.Instruction) continuation {
 		idx := fr.get(instr.Index)
 		switch x := x.(type) {
 		case []value:
-			fr.env[instr] = &x[asInt64(idx)]
+			fr.env[instr] = &x[fr.i.ex.index(idx, len(x))]
 		case *value: // *array
-			fr.env[instr] = &(*x).(array)[asInt64(idx)]
+			a := (*x).(array)
+			fr.env[instr] = &a[fr.i.ex.index(idx, len(a))]
 		default:
 			panic(fmt.Sprintf("unexpected x type in IndexAddr: %T", x))
 		}
@@ -348,9 +360,9 @@ func visitInstr(fr *frame, instr ssa.Instruction) continuation {
 
 		switch x := x.(type) {
 		case array:
-			fr.env[instr] = x[asInt64(idx)]
+			fr.env[instr] = x[fr.i.ex.index(idx, len(x))]
 		case string:
-			fr.env[instr] = x[asInt64(idx)]
+			fr.env[instr] = x[fr.i.ex.index(idx, len(x))]
 		default:
 			panic(fmt.Sprintf("unexpected x type in Index: %T", x))
 		}
@@ -363,10 +375,12 @@ func visitInstr(fr *frame, instr ssa.Instruction) continuation {
 		key := fr.get(instr.Key)
 		v := fr.get(instr.Value)
 		switch m := m.(type) {
-		case map[value]value:
-			m[key] = v
-		case *hashmap:
-			m.insert(key.(hashable), v)
+		case *omap:
+			if m == nil {
+				panic(targetRuntimeError("assignment to entry in nil map"))
+			}
+			fr.i.ex.noteWrite(fr, instr, "map")
+			m.insert(key, v)
 		default:
 			panic(fmt.Sprintf("illegal map type: %T", m))
 		}
@@ -385,47 +399,7 @@ func visitInstr(fr *frame, instr ssa.Instruction) continuation {
 		log.Fatal("unreachable") // phis are processed at block entry
 
 	case *ssa.Select:
-		var cases []reflect.SelectCase
-		if !instr.Blocking {
-			cases = append(cases, reflect.SelectCase{
-				Dir: reflect.SelectDefault,
-			})
-		}
-		for _, state := range instr.States {
-			var dir reflect.SelectDir
-			if state.Dir == types.RecvOnly {
-				dir = reflect.SelectRecv
-			} else {
-				dir = reflect.SelectSend
-			}
-			var send reflect.Value
-			if state.Send != nil {
-				send = reflect.ValueOf(fr.get(state.Send))
-			}
-			cases = append(cases, reflect.SelectCase{
-				Dir:  dir,
-				Chan: reflect.ValueOf(fr.get(state.Chan)),
-				Send: send,
-			})
-		}
-		chosen, recv, recvOk := reflect.Select(cases)
-		if !instr.Blocking {
-			chosen-- // default case should have index -1.
-		}
-		r := tuple{chosen, recvOk}
-		for i, st := range instr.States {
-			if st.Dir == types.RecvOnly {
-				var v value
-				if i == chosen && recvOk {
-					// No need to copy since send makes an unaliased copy.
-					v = recv.Interface().(value)
-				} else {
-					v = zero(st.Chan.Type().Underlying().(*types.Chan).Elem())
-				}
-				r = append(r, v)
-			}
-		}
-		fr.env[instr] = r
+		panic("unsupported: select")
 
 	default:
 		panic(fmt.Sprintf("unexpected instruction: %T", instr))
@@ -512,15 +486,27 @@ func callSSA(i *interpreter, caller *frame, callpos token.Pos, fn *ssa.Function,
 	}
 	if fn.Parent() == nil {
 		name := fn.String()
-		if ext := externals[name]; ext != nil {
+		if ext := lookupExternal(fn, name); ext != nil {
 			if i.mode&EnableTracing != 0 {
 				fmt.Fprintln(os.Stderr, "\t(external)")
 			}
 			return ext(fr, args)
 		}
 		if fn.Blocks == nil {
-			panic("no code for function: " + name)
+			panic("unsupported: no code for function: " + name)
 		}
+	}
+	if i.ex != nil && i.ex.wantSummary(fn) {
+		return i.ex.summarize(i, caller, callpos, fn, args, env)
+	}
+	return callSSAraw(i, fr, fn, args, env)
+}
+
+// callSSAraw runs the body of fn in the prepared frame fr.
+func callSSAraw(i *interpreter, fr *frame, fn *ssa.Function, args []value, env []value) value {
+	if i.ex != nil {
+		i.ex.enterFn(fn)
+		defer i.ex.leaveFn(fn)
 	}
 
 	// generic function body?
@@ -532,7 +518,7 @@ func callSSA(i *interpreter, caller *frame, callpos token.Pos, fn *ssa.Function,
 	fr.block = fn.Blocks[0]
 	fr.locals = make([]value, len(fn.Locals))
 	for i, l := range fn.Locals {
-		fr.locals[i] = zero(typeparams.MustDeref(l.Type()))
+		fr.locals[i] = zero(mustDeref(l.Type()))
 		fr.env[l] = &fr.locals[i]
 	}
 	for i, p := range fn.Params {
@@ -576,6 +562,9 @@ func runFrame(fr *frame) {
 		}
 		fr.panicking = true
 		fr.panic = recover()
+		if isControlPanic(fr.panic) {
+			panic(fr.panic) // exploration control flow: not a target-level panic
+		}
 		if fr.i.mode&EnableTracing != 0 {
 			fmt.Fprintf(os.Stderr, "Panicking: %T %v.\n", fr.panic, fr.panic)
 		}
@@ -671,85 +660,3 @@ func doRecover(caller *frame) value {
 	return iface{}
 }
 
-// Interpret interprets the Go program whose main package is mainpkg.
-// mode specifies various interpreter options.  filename and args are
-// the initial values of os.Args for the target program.  sizes is the
-// effective type-sizing function for this program.
-//
-// Interpret returns the exit code of the program: 2 for panic (like
-// gc does), or the argument to os.Exit for normal termination.
-//
-// The SSA program must include the "runtime" package.
-//
-// Type parameterized functions must have been built with
-// InstantiateGenerics in the ssa.BuilderMode to be interpreted.
-func Interpret(mainpkg *ssa.Package, mode Mode, sizes types.Sizes, filename string, args []string) (exitCode int) {
-	i := &interpreter{
-		prog:       mainpkg.Prog,
-		globals:    make(map[*ssa.Global]*value),
-		mode:       mode,
-		sizes:      sizes,
-		goroutines: 1,
-	}
-	runtimePkg := i.prog.ImportedPackage("runtime")
-	if runtimePkg == nil {
-		panic("ssa.Program doesn't include runtime package")
-	}
-	i.runtimeErrorString = runtimePkg.Type("errorString").Object().Type()
-
-	initReflect(i)
-
-	i.osArgs = append(i.osArgs, filename)
-	for _, arg := range args {
-		i.osArgs = append(i.osArgs, arg)
-	}
-
-	for _, pkg := range i.prog.AllPackages() {
-		// Initialize global storage.
-		for _, m := range pkg.Members {
-			switch v := m.(type) {
-			case *ssa.Global:
-				cell := zero(typeparams.MustDeref(v.Type()))
-				i.globals[v] = &cell
-			}
-		}
-	}
-
-	// Top-level error handler.
-	exitCode = 2
-	defer func() {
-		if exitCode != 2 || i.mode&DisableRecover != 0 {
-			return
-		}
-		switch p := recover().(type) {
-		case exitPanic:
-			exitCode = int(p)
-			return
-		case targetPanic:
-			fmt.Fprintln(os.Stderr, "panic:", toString(p.v))
-		case runtime.Error:
-			fmt.Fprintln(os.Stderr, "panic:", p.Error())
-		case string:
-			fmt.Fprintln(os.Stderr, "panic:", p)
-		default:
-			fmt.Fprintf(os.Stderr, "panic: unexpected type: %T: %v\n", p, p)
-		}
-
-		// TODO(adonovan): dump panicking interpreter goroutine?
-		// buf := make([]byte, 0x10000)
-		// runtime.Stack(buf, false)
-		// fmt.Fprintln(os.Stderr, string(buf))
-		// (Or dump panicking target goroutine?)
-	}()
-
-	// Run!
-	call(i, nil, token.NoPos, mainpkg.Func("init"), nil)
-	if mainFn := mainpkg.Func("main"); mainFn != nil {
-		call(i, nil, token.NoPos, mainFn, nil)
-		exitCode = 0
-	} else {
-		fmt.Fprintln(os.Stderr, "No main function.")
-		exitCode = 1
-	}
-	return
-}
